@@ -411,3 +411,16 @@ pub fn locale_with(decimal: &str, group: &str) -> Locale {
         currency: Currency { iso: "USD".to_string(), symbol: "$".to_string() },
     }
 }
+
+// ---------------------------------------------------------------------------------------------
+// the `en` Language.  Natively the real table; under mirsym an intercept with the boolean and error names
+// concrete (as printed by `h_probe_language_en`, compared natively on every run) and the function table opaque.
+
+use crate::language::Language;
+#[cfg(verif_replay)]
+pub fn language_en() -> &'static Language { crate::language::get_language("en").expect("en") }
+#[cfg(not(verif_replay))]
+pub fn language_en() -> &'static Language { vrt_language_en() }
+#[cfg(not(verif_replay))]
+#[inline(never)]
+pub fn vrt_language_en() -> &'static Language { std::hint::black_box(crate::language::get_language("en").unwrap()) }
